@@ -327,6 +327,6 @@ class Kill:
         if st.strong(b) == frozenset("O"):
             self.kill_sites.add(ev.b)
             eng.obl("KILL-1", "kill-site", ev.b)
-            if st.empty(b) is not True:
+            if st.empty(b) is not True and ("purged", b) not in st.flags:
                 eng.violate("KILL-1", "%s:kills-without-unlink" % short(self.entry_name), "%s takes the last strong reference of %s outside Rc::drop without checking that no adoption links exist or purging them (peers keep records naming the given-up allocation; a non-empty table is leaked)" % (short(self.entry_name), show(b)), ev.b, st)
         return None
